@@ -122,7 +122,7 @@ def gen_ir(rng, domain="sig", n_max=6, docs="plain", suffix_defaults=True, retur
           "params": params, "returns": None}
     if rng.random() < returns:
         rt = rng.choice(SCALARS)
-        ir["returns"] = OrderedDict((("return_type", {"typ": rt, "doc": "the result"}),))
+        ir["returns"] = OrderedDict((("return_type", {"typ": rt, "doc": rng.choice(["the result", "the result", "the pair, first the count, then the label"])}),))
         if rng.random() < 0.4:   # return defaults are code-quoted expressions in the IR (cf. the suite's mocks)
             ir["returns"]["return_type"]["default"] = {"int": "```5```", "float": "```0.5```", "str": "```'ok'```", "bool": "```True```"}[rt]
     return ir
